@@ -440,6 +440,11 @@ def sum_zero(ctx, name, d, kind='ensures', depth=0):
 # ----------------------------------------------------------------------------------------
 # verification of one function against its contract
 
+def named_sums(ctx):
+    """(symbol, SumT) for every finite sum the code divided by on this path (sym.name_sum)."""
+    return list(S.NAMED_SUMS.values())[ctx.named_mark:]
+
+
 def setup_path(ctx, contract):
     """Symbolic arguments, precondition, deep-copied entry state and the model's expectation."""
     from .nplib import PI_AXIOMS, deepcopy_value
